@@ -8,8 +8,8 @@ package wal
 //@ func WALChecksum
 //@   assigns **
 //@   loop 1 invariant [in-bounds] 0 <= i && i % 8 == 0 && len(b) % 8 == 0
-//@   ensures [misaligned-is-an-error] (old(len(b)) % 8 != 0) ==> result2 != nil
-//@   ensures [aligned-is-accepted] (old(len(b)) % 8 == 0) ==> result2 == nil
+//@   ensures [misaligned-is-an-error] (len(b) % 8 != 0) ==> result2 != nil
+//@   ensures [aligned-is-accepted] (len(b) % 8 == 0) ==> result2 == nil
 //
 // Offset: the file offset of the frame read last.
 //@ func (*Reader) Offset
@@ -72,6 +72,7 @@ package wal
 //@   ghost update after @s.walReader.Offset: off = result
 //@   assert after @def:offset: [offset-of-the-frame-just-read] offset == s.start + off - 32
 //@   assert after @set:txFrames[pgno]: [recorded-under-its-page-at-its-offset] txFrames[pgno] != nil && txFrames[pgno].Pgno == pgno && txFrames[pgno].Commit == commit && txFrames[pgno].Offset == offset
+//@   assert @set:waitingForCommit: [frame-on-record-is-the-frame-just-read] txFrames[pgno] != nil && txFrames[pgno].Pgno == pgno && txFrames[pgno].Commit == commit && txFrames[pgno].Offset == offset
 //@   assert @maps.Copy: [kept-only-at-a-commit-frame] commit != 0 && lastCommit == commit
 //@   assert @clear: [transaction-set-emptied-only-after-it-was-kept] commit != 0
 //@   assert after @set:s.frames: [kept-set-built-only-for-a-committed-tail] lastCommit != 0
@@ -110,7 +111,7 @@ package wal
 // writeFrame: header = page number, commit field, the SOURCE header's salts, then the running
 // checksum continued over the first 8 header bytes and the page data; header then data are written.
 //@ func (*Writer) writeFrame
-//@   requires [recv] w != nil && w.rHeader != nil && frame != nil && ww != nil
+//@   requires [recv] w != nil && frame != nil
 //@   assigns **
 //@   ghost var h1 int = 0
 //@   ghost var h2 int = 0
@@ -136,7 +137,7 @@ package wal
 // WriteTo: the header first, then every frame the iterator delivers, in its order, until io.EOF;
 // any other error stops the copy and is returned.
 //@ func (*Writer) WriteTo
-//@   requires [recv] w != nil && w.r != nil && w.rHeader != nil && ww != nil
+//@   requires [recv] w != nil
 //@   assigns **
 //@   ghost var hdrOK bool = false
 //@   ghost var nextOK bool = false
